@@ -25,7 +25,7 @@
 From Coq Require Import ZArith List Bool.
 From VBase Require Import MachInt.
 From VModel Require Import Merkle Integrity.
-From VProofs Require Import MerkleBase MerkleSingle IntegrityOrder IntegrityBinding IntegrityExamples IntegrityTranscript IntegrityCheckSound.
+From VProofs Require Import MerkleBase MerkleSingle MerkleTotal IntegrityOrder IntegrityBinding IntegrityExamples IntegrityTranscript IntegrityCheckSound.
 Import ListNotations.
 
 (* ------------------------------------------------------------------------------------------------ structure *)
@@ -146,22 +146,21 @@ Theorem C03_auth_binding_single : forall (D : Type) (D_eqb : D -> D -> bool),
 Proof. exact auth_binding_single. Qed.
 Print Assumptions C03_auth_binding_single.
 
-(* (a) AuthCheck, batch opening (what the verifier calls).  PARTIAL: conditional on the batch-binding statement which
-   C10 lists as not proved (Props/C10.v); the full statement is the same without the hypothesis
-   [merkle_batch_binding_statement].  What is proved here: the reduction from "different opened rows" to "an explicit
-   collision of the leaf hash or of merge". *)
-Theorem C03_auth_binding_batch_partial : forall (D : Type) (D_eqb : D -> D -> bool) (d0 : D) (merge : D -> D -> D)
+(* (a) AuthCheck, batch opening (what the verifier calls): instance of C10_batch_binding_verify_batch.  Two accepting
+   runs against the root of a committed tree, same positions (usize values), same number of opened rows, different rows:
+   a pair of different rows with the same leaf hash, or a collision of merge.  No hypothesis on merge or the leaf hash. *)
+Theorem C03_auth_binding_batch : forall (D : Type) (D_eqb : D -> D -> bool),
+  (forall a b, D_eqb a b = true <-> a = b) -> forall (d0 : D) (merge : D -> D -> D)
   (V : Type) (hl : V -> D), (forall a b : V, {a = b} + {a <> b}) ->
-  merkle_batch_binding_statement D D_eqb d0 merge ->
   forall t d idx nodes nodes' vs vs',
-  wf_tree D d0 merge d t -> (d <= 62)%nat ->
+  wf_tree D d0 merge d t -> (d <= 62)%nat -> usize_list idx ->
   verify_batch D D_eqb merge (hval D d0 t 1) idx {| bp_leaves := map hl vs; bp_nodes := nodes; bp_depth := Z.of_nat d |} = Ok tt ->
   verify_batch D D_eqb merge (hval D d0 t 1) idx {| bp_leaves := map hl vs'; bp_nodes := nodes'; bp_depth := Z.of_nat d |} = Ok tt ->
   length vs = length idx -> length vs' = length idx -> vs <> vs' ->
   (exists j v v', nth_error vs j = Some v /\ nth_error vs' j = Some v' /\ leaf_collision D V hl (v, v'))
   \/ exists c, is_collision D merge c.
 Proof. exact auth_binding_batch. Qed.
-Print Assumptions C03_auth_binding_batch_partial.
+Print Assumptions C03_auth_binding_batch.
 
 (* (b) Absorb: a different value of an absorbed component changes the (free) coin term, and if the absorption precedes
    DrawPositions, the term the positions are drawn from *)
@@ -202,6 +201,17 @@ Example C03_auth_single_hypotheses_satisfiable :
   exists c, find_collision Z Z.eqb 0%Z merge 0%Z [1; 5]%Z [2; 5]%Z = Some c /\ is_collision Z merge c.
 Proof. exact ex_auth_single_hyps. Qed.
 Print Assumptions C03_auth_single_hypotheses_satisfiable.
+
+Example C03_auth_batch_hypotheses_satisfiable :
+  let merge := fun _ _ : Z => 0%Z in
+  wf_tree Z 0%Z merge 1 ex_tree /\ usize_list [0%Z] /\
+  verify_batch Z Z.eqb merge (hval Z 0%Z ex_tree 1) [0%Z]
+    {| bp_leaves := map (fun v : Z => v) [5%Z]; bp_nodes := [[2%Z]]; bp_depth := Z.of_nat 1 |} = Ok tt /\
+  verify_batch Z Z.eqb merge (hval Z 0%Z ex_tree 1) [0%Z]
+    {| bp_leaves := map (fun v : Z => v) [6%Z]; bp_nodes := [[2%Z]]; bp_depth := Z.of_nat 1 |} = Ok tt /\
+  [5%Z] <> [6%Z].
+Proof. exact ex_auth_batch_hyps. Qed.
+Print Assumptions C03_auth_batch_hypotheses_satisfiable.
 
 Example C03_absorb_hypotheses_satisfiable :
   (exists e, In e (events current ex_shape0) /\ absorbs e ConstraintRoot) /\
